@@ -281,6 +281,7 @@ def _locals_summary(frame):
 
 
 _installed = None
+_GENERATOR = None
 
 
 def install():
@@ -317,7 +318,12 @@ def execute(params, schedule=None, orders=None, horizon=HORIZON, probe=None, con
         del g.__dict__["set"]
     sc, exc = None, None
     try:
-        sc = g.ScenarioGenerator().generate(**params)
+        # ONE generator object per process, reused for every execution: generate() may be called any number of
+        # times on the same ScenarioGenerator and must not remember anything from the previous call
+        global _GENERATOR
+        if _GENERATOR is None or not isinstance(_GENERATOR, g.ScenarioGenerator):
+            _GENERATOR = g.ScenarioGenerator()
+        sc = _GENERATOR.generate(**params)
     except Horizon:
         exc = "horizon"
     except _Dev:
